@@ -160,7 +160,7 @@ func bridgeFEN(b *board.Board) string {
 
 func TestC18_deterministic(t *testing.T) {
 	runRapid(t, "C18/deterministic", 4000, func(t *rapid.T) detCase {
-		c := detCase{Main: genSearchCase(t, searchConfigs), Other: genSearchCase(t, searchConfigs)}
+		c := detCase{Main: genSearchCase(t, abConfigs), Other: genSearchCase(t, abConfigs)}
 		for _, sc := range []*searchCase{&c.Main, &c.Other} {
 			cfg, _ := findConfig(sc.Config)
 			if g, err := (gen.GameCase{FEN: sc.FEN, Moves: sc.Moves}).Build(); err == nil {
@@ -262,6 +262,50 @@ var checkC18Engine = def("C18/engine", func(c engineDetCase) error {
 			return fmt.Errorf("%s: analysis changed the engine's game: %s", where, d)
 		}
 	}
+	// "no hash table carried over": after the Hash option has been on and is switched off again,
+	// a reset engine must search exactly like one that never had a table
+	if c.Noise == 0 && c.Rounds == 1 {
+		e3, err := mk()
+		if err != nil {
+			return err
+		}
+		e3.SetHash(1)
+		if err := e3.Reset(ctx, c.FEN); err != nil {
+			return err
+		}
+		for _, mv := range c.Moves {
+			if err := e3.Move(ctx, mv); err != nil {
+				return err
+			}
+		}
+		if _, err := analyzeToEnd(e3, c.Depth); err != nil {
+			return err
+		}
+		e3.SetHash(0)
+		if err := e3.Reset(ctx, c.FEN); err != nil {
+			return err
+		}
+		for _, mv := range c.Moves {
+			if err := e3.Move(ctx, mv); err != nil {
+				return err
+			}
+		}
+		a, err := analyzeToEnd(e3, c.Depth)
+		if err != nil {
+			return err
+		}
+		ref, err := mk()
+		if err != nil {
+			return err
+		}
+		b, err := analyzeToEnd(ref, c.Depth)
+		if err != nil {
+			return err
+		}
+		if la, lb := a[len(a)-1], b[len(b)-1]; !la.equal(lb) {
+			return fmt.Errorf("%s: after Hash was switched on, used and switched off again the engine reports %v, an engine that never had a table %v", where, la, lb)
+		}
+	}
 	if c.Halt {
 		fen1, snap1 := e1.Position(), takeSnap(e1.Board())
 		if _, err := e1.Analyze(ctx, searchctl.Options{}); err != nil {
@@ -290,7 +334,7 @@ var checkC18Engine = def("C18/engine", func(c engineDetCase) error {
 
 func TestC18_engine(t *testing.T) {
 	runRapid(t, "C18/engine", 2500, func(t *rapid.T) engineDetCase {
-		sc := genSearchCase(t, searchConfigs)
+		sc := genSearchCase(t, abConfigs)
 		cfg, _ := findConfig(sc.Config)
 		if g, err := (gen.GameCase{FEN: sc.FEN, Moves: sc.Moves}).Build(); err == nil {
 			sc.Depth = rapid.IntRange(1, estimateDepth(g, cfg, 4, 20_000)).Draw(t, "d")
@@ -371,7 +415,7 @@ var checkC18Inflight = def("C18/inflight", func(c inflightCase) error {
 
 func TestC18_inflight(t *testing.T) {
 	runRapid(t, "C18/inflight", 1500, func(t *rapid.T) inflightCase {
-		sc := genSearchCase(t, searchConfigs)
+		sc := genSearchCase(t, abConfigs)
 		c := inflightCase{searchCase: sc, DelayUS: rapid.SampledFrom([]int{0, 0, 50, 500}).Draw(t, "delay")}
 		g, err := gen.GameCase{FEN: sc.FEN, Moves: sc.Moves}.Build()
 		if err != nil {
